@@ -9,7 +9,7 @@ try:
     s = open(p).read()
     assert s.count(old) == 1, s.count(old)
     open(p, 'w').write(s.replace(old, new))
-    r = subprocess.run(['python3-vt', 'tools_dbg.py', mod] + sys.argv[5:], env=dict(os.environ, VERIF_REPO=d), capture_output=True, text=True)
+    r = subprocess.run(['python3-vt', os.environ.get('TOOL', 'tools_dbg.py'), mod] + sys.argv[5:], env=dict(os.environ, VERIF_REPO=d), capture_output=True, text=True)
     print('\n'.join(l for l in r.stdout.splitlines() if not l.startswith('WARN'))[-3000:])
     print(r.stderr[-500:])
 finally:
